@@ -51,6 +51,10 @@ def run(ctx):
     from . import c07 as _c07
     from .common import borrow as _borrow
     _borrow(rc, "V5", _c07._pure)
+    res.rule("V6", "the reduced curve has no repeated point: every simplifier loop only pushes ranges with an interior point and retains one new index per step "
+                   "(a duplicated retained index makes the detectors divide by zero and shifts the index mapping)")
+    from . import c01 as _c01
+    _borrow(rc, "V6", _c01.sec_distinct)
     # ---- V1 / V2: worst-knee and corner filters (shared machinery of C13) ---------------------
     sf, so = len(res.findings), len(res.obligations)
     c13._worst(rc)
